@@ -163,21 +163,153 @@ def objective_block(args):
     return collect(eng, run, base, which)
 
 
+class _IsoHK:
+    """contract stand-in for an isotherm handed to psd_microporous: adsorbate getters return this object's own symbols"""
+
+    def __init__(self, eng, tag, complete=True):
+        self.temperature = eng.real('T' + tag, positive=True)
+        self.props = {k: eng.real(k[:6] + tag, positive=True) for k in ('molecular_diameter', 'polarizability', 'magnetic_susceptibility', 'surface_density')}
+        if not complete:
+            del self.props['surface_density']
+        self.rho, self.M = eng.real('rho' + tag, positive=True), eng.real('M' + tag, positive=True)
+        self.rho_calls = []
+        outer = self
+
+        class A:
+            def __str__(s):
+                return 'nitrogen'  # the same adsorbate name for every isotherm
+
+            def get_prop(s, name):
+                from pygaps.utilities.exceptions import ParameterError
+                if name not in outer.props:
+                    raise ParameterError(name)
+                return outer.props[name]
+
+            def liquid_density(s, T):
+                outer.rho_calls.append(T)
+                return outer.rho
+
+            def molar_mass(s):
+                return outer.M
+        self.adsorbate = A()
+
+
+def driver_block(args):
+    """psd_microporous hands the kernel the parameters of *this* isotherm (database properties, liquid density at this
+    temperature), this isotherm's branch data inside the limits and the named material model -- whatever ran before."""
+    model, explicit = args
+    st = _prep()
+    PMi, E = st['PMi'], st['E']
+    if not getattr(PMi, '__driver_lifted__', False):
+        PMi.psd_microporous = lift.lifted_source_function(PMi.psd_microporous)
+        PMi.__driver_lifted__ = True
+    base = f"{P}/psd_micro.psd_microporous"
+    cfg = f"model={model}|adsorbate_model={'given' if explicit else 'from_isotherm'}"
+    eng = sx.Engine(max_paths=2000)
+
+    def run():
+        n = 4
+        calls = []
+
+        def rec(pressure, loading, temperature, pore_geometry, adsorbate_properties, material_properties, use_cy=False):
+            calls.append(dict(pressure=list(pressure), loading=list(loading), temperature=temperature, geometry=pore_geometry,
+                              ads=adsorbate_properties, mat=material_properties, use_cy=use_cy))
+            w = [eng.real(f'w{len(calls)}_{i}', positive=True) for i in range(len(pressure))]
+            return w, w, w
+        saved = (PMi.psd_horvath_kawazoe, PMi.psd_horvath_kawazoe_ry, PMi.get_iso_loading_and_pressure_ordered)
+        PMi.psd_horvath_kawazoe = PMi.psd_horvath_kawazoe_ry = rec
+        outs, isos, datas, given = [], [], [], []
+        try:
+            for tag in ('a', 'b'):
+                ps = [eng.real(f'p{tag}{i}', positive=True) for i in range(n)]
+                ls = [eng.real(f'l{tag}{i}', positive=True) for i in range(n)]
+                for i in range(1, n):
+                    eng.assume(ps[i] > ps[i - 1])
+                eng.assume(ps[-1] < F(1, 5))  # inside the default upper limit 0.2
+                iso = _IsoHK(eng, tag)
+                req = {}
+
+                def fake(isotherm, branch, lu, pu, ps=ps, ls=ls, req=req):
+                    req.update(branch=branch, lu=lu, pu=pu)
+                    a, b = numpy.empty(n, dtype=object), numpy.empty(n, dtype=object)
+                    a[:], b[:] = ps, ls
+                    return a, b
+                PMi.get_iso_loading_and_pressure_ordered = fake
+                am = {k: eng.real('g_' + k[:6] + tag, positive=True) for k in ('molecular_diameter', 'polarizability', 'magnetic_susceptibility', 'surface_density',
+                                                                               'liquid_density', 'adsorbate_molar_mass')} if explicit else None
+                mark = len(calls)
+                try:
+                    PMi.psd_microporous(iso, psd_model=model, pore_geometry='slit', branch='ads', material_model='AlSiOxideIon', adsorbate_model=am)
+                    outs.append(('return', mark))
+                except (E.CalculationError, E.ParameterError) as exc:
+                    outs.append((type(exc).__name__, mark))
+                isos.append(iso), datas.append((ps, ls, req)), given.append(am)
+        finally:
+            PMi.psd_horvath_kawazoe, PMi.psd_horvath_kawazoe_ry, PMi.get_iso_loading_and_pressure_ordered = saved
+        x = {'replay': {'kind': 'c17.history', 'model': model, 'explicit': explicit}}
+        for k, tag in ((0, 'first'), (1, 'second_after_another_isotherm_of_the_same_adsorbate')):
+            iso, (ps, ls, req), am = isos[k], datas[k], given[k]
+            mine = calls[outs[k][1]:(outs[k + 1][1] if k + 1 < len(outs) else None)]
+            eng.prove(f"{base}/driver.returns_and_runs_the_kernel_once/{cfg}|{tag}", outs[k][0] == 'return' and len(mine) == 1, extra=dict(x, observed=outs[k][0]))
+            if len(mine) != 1:
+                continue
+            c = mine[0]
+            if explicit:
+                ok = c['ads'] is am or (set(c['ads']) == set(am) and all(c['ads'][q] is am[q] for q in am))
+                eng.prove(f"{base}/driver.given_adsorbate_model_used_as_given/{cfg}|{tag}", ok, extra=x)
+                eng.prove(f"{base}/driver.no_database_lookup_when_model_given/{cfg}|{tag}", not iso.rho_calls, extra=x)
+            else:
+                want = dict(iso.props, liquid_density=iso.rho, adsorbate_molar_mass=iso.M)
+                ok = set(c['ads']) == set(want) and all(c['ads'][q] is want[q] for q in want)
+                eng.prove(f"{base}/driver.adsorbate_parameters_are_this_isotherms/{cfg}|{tag}", ok,
+                          extra=dict(x, observed=str({q: str(v) for q, v in c['ads'].items()})[:300]))
+                eng.prove(f"{base}/driver.liquid_density_at_isotherm_temperature/{cfg}|{tag}", len(iso.rho_calls) >= 1 and all(t is iso.temperature for t in iso.rho_calls), extra=x)
+            eng.prove(f"{base}/driver.temperature_and_geometry_passed/{cfg}|{tag}", c['temperature'] is iso.temperature and c['geometry'] == 'slit'
+                      and c['use_cy'] == model.endswith('CY'), extra=x)
+            eng.prove(f"{base}/driver.molar_mmol_relative_pressure_requested/{cfg}|{tag}", req.get('branch') == 'ads' and req.get('lu') == {'loading_basis': 'molar', 'loading_unit': 'mmol'}
+                      and req.get('pu') == {'pressure_mode': 'relative'}, extra=x)
+            eng.prove(f"{base}/driver.all_points_inside_default_limits_passed_in_order/{cfg}|{tag}",
+                      len(c['pressure']) == n and all(a is b for a, b in zip(c['pressure'], ps)) and all(a is b for a, b in zip(c['loading'], ls)), extra=x)
+            import pygaps.characterisation.models_hk as MH
+            eng.prove(f"{base}/driver.named_material_model_passed/{cfg}|{tag}", c['mat'] == MH.get_hk_model('AlSiOxideIon'), extra=x)
+
+    obs = collect(eng, run, base, cfg)
+    if not explicit and model == 'HK':
+        # an adsorbate without the database properties is refused with a parameter error
+        eng2 = sx.Engine(max_paths=50)
+
+        def run2():
+            iso = _IsoHK(eng2, 'z', complete=False)
+            try:
+                PMi.psd_microporous(iso, psd_model='HK')
+                out = 'return'
+            except E.ParameterError:
+                out = 'ParameterError'
+            except sx.Unsupported:
+                raise
+            except Exception as exc:
+                out = f"went on past the parameter look-up: {type(exc).__name__}"
+            eng2.prove(f"{base}/driver.missing_adsorbate_property_refused/{cfg}", out == 'ParameterError', extra={'observed': out})
+        obs += collect(eng2, run2, base, cfg)
+    return obs
+
+
 def _dispatch(job):
     kind, arg = job
-    return {'slit': slit_block, 'obj': objective_block}[kind](arg)
+    return {'slit': slit_block, 'obj': objective_block, 'drv': driver_block}[kind](arg)
 
 
 def run(rep):
     rep.level = 'other'
-    rep.fn('pygaps.characterisation.psd_micro.psd_horvath_kawazoe (slit closure `potential`, tail)', 'pygaps.characterisation.psd_micro._solve_hk',
+    rep.fn('pygaps.characterisation.psd_micro.psd_microporous (driver: parameters, data request, window, kernel call; two calls per path)',
+           'pygaps.characterisation.psd_micro.psd_horvath_kawazoe (slit closure `potential`, tail)', 'pygaps.characterisation.psd_micro._solve_hk',
            'pygaps.characterisation.psd_micro._solve_hk_cy', 'pygaps.characterisation.psd_micro._dispersion_from_dict / _kirkwood_muller_dispersion_* / _N_over_RT')
     rep.assume('scipy.optimize.minimize_scalar(bounded): returns a minimiser of the objective inside the bounds (assumed; convergence is bounded only)',
                'the published slit HK equation as transcribed in this file (Horvath & Kawazoe 1983, sigma = (2/5)^(1/6) d0)',
                'polarizability / susceptibility inputs scaled by 1e-27 as the code documents; scipy.constants lifted to decimals',
                'sympy polynomial normal form is trusted')
     rep.trust('CPython 3.12', 'sympy 1.14', 'z3 5.1.0', 'pgv.sx', 'pgv.lift')
-    jobs = [('slit', None), ('obj', ('_solve_hk',)), ('obj', ('_solve_hk_cy',))]
+    jobs = [('slit', None), ('obj', ('_solve_hk',)), ('obj', ('_solve_hk_cy',))] + [('drv', (m, e)) for m in ('HK', 'HK-CY', 'RY', 'RY-CY') for e in (False, True)]
     obs, crashes = par.pmap(_dispatch, jobs)
     rep.extend(obs)
     if crashes:
